@@ -596,6 +596,40 @@ def gen_composite(ctx, harness):
     mut("privD", [priv_der(d0)], 70, hints=True)
     mut("p8D", [p8_der(d0), p8_der(d1, attrs=b"\x30\x00")], 50, hints=True)
 
+    # ---- keys through PEM into a (dirty) SM2_KEY
+    import base64 as _b64
+    def pem_text(name, der, nl=b"\n"):
+        b = _b64.b64encode(der)
+        return b"-----BEGIN " + name + b"-----" + nl + b"".join(b[i:i + 64] + nl for i in range(0, len(b), 64)) + b"-----END " + name + b"-----" + nl
+    def pem_hints(text):
+        """hints for whatever a lenient reader could get out of a (mutated) PEM text"""
+        import re as _re
+        body = b"".join(l for l in text.replace(b"\r", b"").split(b"\n") if not l.startswith(b"-----"))
+        body = _re.sub(rb"[^A-Za-z0-9+/]", b"", body.split(b"=")[0])
+        out = ""
+        for cut in (0, 1, 2, 3):
+            b = body[:len(body) - cut] if cut else body
+            try:
+                out += key_hints(_b64.b64decode(b + b"=" * (-len(b) % 4)))
+            except Exception:
+                pass
+        return out
+    for d in ds:
+        pi = tlv(0x30, tlv(0x30, oid_der(10) + oid_der(1)) + tlv(3, b"\0\x04" + sm2_pub_bytes(d)))
+        for op, name, der in (("pubiP", b"PUBLIC KEY", pi), ("p8P", b"PRIVATE KEY", p8_der(d))):
+            add("%s %s%s" % (op, hexs(pem_text(name, der)), key_hints(der)), op + ":valid")
+            add("%s %s%s" % (op, hexs(pem_text(name, der, b"\r\n")), key_hints(der)), op + ":crlf")
+            add("%s %s%s" % (op, hexs(pem_text(name, der + b"\0")), key_hints(der)), op + ":trailing-byte")
+            add("%s %s%s" % (op, hexs(pem_text(b"CERTIFICATE", der)), key_hints(der)), op + ":other-name")
+            add("%s %s%s" % (op, hexs(pem_text(name, der + bytes(600))), key_hints(der)), op + ":over-512")
+            for _ in range(6 * K):
+                m = mutate(r, der, 1)
+                add("%s %s%s" % (op, hexs(pem_text(name, m)), key_hints(m)), op + ":mutated-der")
+                mt = mutate(r, pem_text(name, der), 1)
+                add("%s %s%s%s" % (op, hexs(mt), key_hints(der), pem_hints(mt)), op + ":mutated-text")
+    add("pubiP -", "pubiP:empty")
+    add("p8P -", "p8P:empty")
+
     # ---- password-encrypted keys: built with chosen parameters, opened with right and wrong passwords
     def keyh(d):
         xy = sm2_pub_bytes(d)
